@@ -1315,7 +1315,7 @@ class SSHConnection(SSHPacketHandler, asyncio.Protocol):
                                                     cert.signing_key):
                 raise ValueError('Host CA key is not trusted')
 
-            cert.validate(CERT_TYPE_HOST, host)
+            cert.validate(CERT_TYPE_HOST, host.lower())
 
         return cert.key
 
